@@ -369,6 +369,12 @@ func ruleAddrDeps(c *Ctx, rule string) {
 		fn := w.Func("ipnet", "", name)
 		c.Anchor(rule, name)
 		got := w.addrFieldDeps(fn)
+		if name == "AddrEqual" {
+			// written with net/netip (AddrPort values compared): the netip evaluator's view
+			if ok, deps, _, _ := w.netipAddrEqual(fn); ok {
+				got = deps
+			}
+		}
 		if strings.Join(got, ",") == strings.Join(want[name], ",") {
 			c.OK(rule, fname(fn), name+" deps", w.pos(fn.Pos()), "result depends on exactly {"+strings.Join(got, ", ")+"}")
 		} else {
@@ -406,6 +412,12 @@ func ruleAddrDeps(c *Ctx, rule string) {
 				bad = "comparison at " + w.instrPos(in) + " pairs a parameter with itself"
 			}
 		})
+		if ok, _, cross, self := w.netipAddrEqual(fn); ok && n < 4 {
+			n = cross
+			if self {
+				bad = "a comparison pairs a parameter with itself"
+			}
+		}
 		if bad != "" || n < 4 {
 			if bad == "" {
 				bad = fmt.Sprintf("only %d cross-parameter comparisons (want IP and Port for UDP and TCP)", n)
